@@ -35,6 +35,7 @@ import (
 
 	"github.com/rulego/streamsql"
 	"github.com/rulego/streamsql/rsql"
+	"github.com/rulego/streamsql/types"
 	"github.com/rulego/streamsql/window"
 )
 
@@ -749,6 +750,67 @@ func c17E2E(s c17Spec, expect int) (string, error) {
 	return strings.Join(ob, " "), nil
 }
 
+// c17Slow: the started window behind its public entry points (Add, Start, SetCallback) with an intake queue of two
+// rows and a consumer that holds the first result for 130 ms while the producer keeps adding: Add has to wait for the
+// worker, every row since the last fire still counts and every result arrives, in order.
+func c17Slow(s c17Spec, expect int) (string, error) {
+	stmt, err := rsql.NewParser(s.sql).Parse()
+	if err != nil {
+		return "", err
+	}
+	cfg, _, err := stmt.ToStreamConfig()
+	if err != nil {
+		return "", err
+	}
+	wc := cfg.WindowConfig
+	wc.PerformanceConfig.BufferConfig.WindowOutputSize = 2
+	gw, err := window.VerifNewGlobal(wc)
+	if err != nil {
+		return "", err
+	}
+	var mu sync.Mutex
+	var ob []string
+	first := true
+	gw.SetCallback(func(rows []types.Row) {
+		mu.Lock()
+		for _, x := range rows {
+			if m, ok := x.Data.(map[string]any); ok {
+				ob = append(ob, c17ResultTok("?", m, s.ncols, len(s.outs), s.special))
+			} else {
+				ob = append(ob, "? notamap")
+			}
+		}
+		hold := first
+		first = false
+		mu.Unlock()
+		if hold {
+			time.Sleep(130 * time.Millisecond)
+		}
+		gw.VerifDrain()
+	})
+	gw.Start()
+	for _, r := range s.rows {
+		gw.Add(c17CopyRow(r.data))
+	}
+	count := func() int { mu.Lock(); defer mu.Unlock(); return len(ob) }
+	for i := 0; i < 3000 && count() < expect; i++ {
+		time.Sleep(2 * time.Millisecond)
+	}
+	last, stable := count(), 0
+	for i := 0; i < 100 && stable < 3; i++ {
+		time.Sleep(15 * time.Millisecond)
+		if c := count(); c == last {
+			stable++
+		} else {
+			last, stable = c, 0
+		}
+	}
+	gw.Stop()
+	mu.Lock()
+	defer mu.Unlock()
+	return strings.Join(ob, " "), nil
+}
+
 func c17Line(s c17Spec, mode, bind, obs, e2e string) string {
 	outs := make([]string, len(s.outs))
 	for i, r := range s.outs {
@@ -955,9 +1017,10 @@ func runC17(tier string, seed uint64, o *Out) error {
 		specs = append(specs, c17GenNested(nrng, maxRows))
 	}
 	type res struct {
-		line string
-		bind string
-		err  error
+		line  string
+		extra string // the same case behind a two-row intake queue and a consumer that stalls (c17Slow)
+		bind  string
+		err   error
 	}
 	out := make([]res, len(specs))
 	var wg sync.WaitGroup
@@ -990,6 +1053,14 @@ func runC17(tier string, seed uint64, o *Out) error {
 				return
 			}
 			out[i] = res{line: c17Line(s, "E", bind, obs, eo), bind: bind}
+			if nres >= 2 && len(s.rows) >= 6 && !s.special {
+				so, err := c17Slow(s, nres)
+				if err != nil {
+					out[i] = res{err: err}
+					return
+				}
+				out[i].extra = c17Line(s, "E", bind, obs, so)
+			}
 		}()
 	}
 	wg.Wait()
@@ -998,6 +1069,10 @@ func runC17(tier string, seed uint64, o *Out) error {
 			return r.err
 		}
 		o.Line("%s", r.line)
+		if r.extra != "" {
+			o.Line("%s", r.extra)
+			o.Count("stalled_consumer_two_row_intake_queue")
+		}
 		s := specs[i]
 		o.Count(fmt.Sprintf("groupcols_%d", s.ncols))
 		o.Count(fmt.Sprintf("pred_calls_%d", len(s.pred.refs(nil))))
